@@ -123,7 +123,10 @@ CHECKS.update({
     "C09": dict(
         text="Coq theorems over wiring tables regenerated from the source on every run (which registry mutation / settings "
              "assignment resets the caches, which functions are cached): with the wiring as read from the code no cached result "
-             "can be stale after a mutation (C09_never_stale, C09_wiring_table_sound, C09_cached_functions_registered). Tie: "
+             "can be stale after a mutation (C09_never_stale, C09_wiring_table_sound, C09_cached_functions_registered); "
+             "C09_never_stale_across_set_size: with the cache objects installed by cache.set_size registered for reset (a fact "
+             "read from cache.py, C09_set_size_registers_what_it_installs) answers through any cache object stay fresh after any "
+             "history of mutations / resizings / observations; C09_unregistered_resize_refuted. Tie: "
              "translator (ast, fail-closed) + histories of mutations/observations run warm vs cold-start in subprocesses.",
         note="Trusted: Coq kernel; the ast translator harness/tables.py (fail-closed on shapes it does not know); the list of "
              "mutating operations / observations in the history alphabet is hand-written. No axioms.",
@@ -188,7 +191,8 @@ CHECKS.update({
              "definitions equal the model's (extraction rule all_refs / count > 1 / recursion included) on generated universes "
              "with type_name overrides (string, factory, None); model-free checks of termination, $schema, meta-schema validity "
              "in each dialect, $ref resolution under the version prefix, definitions_schema = inline $defs, name collisions "
-             "refused, for deserialization and serialization schemas in the 5 versions.",
+             "refused, the same names extracted under every version, types reached through the conversion of a serialized method "
+             "counted and followed, for deserialization and serialization schemas in the 5 versions.",
         note=SCHEMA_NOTE + " Meta-schema validity is decided by jsonschema.check_schema (trusted oracle). The serialization "
              "builder is covered by the model-free checks only.",
         technique="Coq proof (closedness by induction on the builder) + structural correspondence + meta-schema oracle",
@@ -221,7 +225,10 @@ CHECKS.update({
              "(count in the evidence); C05_compiled_models_round_trip chains it with C04 and C01 so that it speaks about the two models "
              "of the code (compiled serializer, compiled deserializer); C05_hypotheses_satisfiable; C05_any_data_round_trip; C05_round_trip_with_symmetric_skips extends it to fields with "
              "skip(serialization_default), none_as_undefined, Undefined unions, any default, exclude_none / exclude_defaults and "
-             "reordered fields whenever each omission restores the value left out (executable condition). Partial: sets, "
+             "reordered fields whenever each omission restores the value left out (executable condition); "
+             "C05_aggregate_keys_round_trip: for flattened / pattern / additional properties fields, when no key is claimed by two "
+             "sources the key dispatch of deserialization hands each source back exactly the keys serialization merged in "
+             "(merged compared with serialize's output keys on every generated class). Partial: sets, "
              "constraints, TypedDict are outside the theorems and checked case by case on the composed models "
              "(roundtrip_case, vm_compute). Tie: model-free round trips on the implementation (direct, through json, and the "
              "dual on accepted data) + model composition on the same values; the two specifications are tied to the "
@@ -266,7 +273,8 @@ CHECKS.update({
              "first accepting deserializer wins, dynamic conversions stop at object fields and reach union alternatives, "
              "identity bypasses a registered conversion. Tie: generated worlds of opaque classes with tagging converters; the "
              "implementation's result is compared as a term with the model (vm_compute); schema of converted types vs "
-             "acceptance (jsonschema); serializers: serialize(T, v) = serialize(U, g(v)), inherited by subclasses.",
+             "acceptance (jsonschema); serializers: serialize(T, v) = serialize(U, g(v)), inherited by subclasses in the four "
+             "registration styles; generic deserializers S[T] -> W[T] with T at any depth of S.",
         note="Trusted: Coq kernel; Small/Conv.v validated by the correspondence (3600 cases per quick run); sub_conversion, generic "
              "and lazy conversions, and the JSON schema merge with the target's annotations are not modelled. No axioms.",
         technique="Coq model + equational theorems + term-level correspondence with tagging converters",
